@@ -276,6 +276,11 @@ def seed_values(name):
         v.update(_ev(0, "constant", "beta", trans=[("B", None, "S", "3")]))
         v.update(_ev(1, "constant", "gamma", trans=[("T", "I", "S", "1")]))
         return v
+    if name == "UNUSED":  # a declared parameter that no process uses, before a used one
+        v = {"n_states": 2, "n_params": 3, "n_events": 2}
+        v.update(_ev(0, "linear", "beta", "S", trans=[("T", "S", "I", "1")]))
+        v.update(_ev(1, "saturating", "mu", "I", "S", trans=[("D", "I", None, "mu")]))
+        return v
     if name == "HYBRID":  # events plus an explicit ODE term that pushes a state towards its upper limit
         v = {"n_states": 2, "n_params": 2, "n_events": 1, "lim0": (0, 3), "n_odes": 1,
              "ode0.s": "S", "ode0.t": "const", "ode0.p": "gamma"}
@@ -298,3 +303,45 @@ def seed_values(name):
         v.update(_ev(2, "saturating", "mu", "R", "S", trans=[("T", "R", "S", "1"), ("T", "I", "S", "1")]))
         return v
     raise KeyError(name)
+
+
+def small_block():
+    """complete small-scope block: <=2 states, <=2 params, one event of 1-2 transitions or two
+    single-transition events; full product of type x endpoints x magnitude {1,2,c} x 3 rate templates"""
+    import itertools
+    out = []
+    mags = ["1", "2", "beta"]
+    for ns in (1, 2):
+        states = STATE_NAMES[:ns]
+        for npar in (1, 2):
+            params = PARAM_NAMES[:npar]
+            trans_opts = []
+            for typ in (("T", "B", "D") if ns == 2 else ("B", "D")):
+                for o in states:
+                    if typ == "T":
+                        for dd in states:
+                            if dd != o:
+                                for mg in mags:
+                                    trans_opts.append(("T", o, dd, mg))
+                    elif typ == "B":
+                        for mg in mags:
+                            trans_opts.append(("B", None, o, mg))
+                    else:
+                        for mg in mags:
+                            trans_opts.append(("D", o, None, mg))
+            rates = []
+            for tm in ("linear", "massaction", "saturating"):
+                X, Y = states[0], states[-1]
+                rates.append(rate_expr(tm, params[-1], params[0], X, Y, None))
+            base = {"states": states, "state_style": "list", "limits": [None] * ns, "params": params,
+                    "param_style": "list", "derived": [], "odes": []}
+            for rate in rates:
+                for t1 in trans_opts:
+                    out.append(dict(base, events=[{"rate": rate, "trans": [t1]}]))
+                    for t2 in trans_opts:
+                        out.append(dict(base, events=[{"rate": rate, "trans": [t1, t2]}]))
+            for r1, r2 in itertools.product(rates[:2], rates[1:]):
+                for t1 in trans_opts[::2]:
+                    for t2 in trans_opts[1::2]:
+                        out.append(dict(base, events=[{"rate": r1, "trans": [t1]}, {"rate": r2, "trans": [t2]}]))
+    return out
